@@ -107,22 +107,30 @@ def scaleMat (d : Rat) (M : Mat) : Mat := M.map (fun r => r.map (· / d))
 /-- `np.sum(y_probas, axis=0) / (np.ones(self.n_classes) * self.n_estimators)` (TSF, STSF) and
 `np.sum(all_proba, axis=0) / self.n_estimators` (RISE); `y_probas` has one matrix per fitted
 estimator (`range(self.n_estimators)`), `n_classes = len(np.unique(y))`.  Members whose shapes
-differ (a member that saw fewer classes) make numpy raise. -/
+differ (a member that saw fewer classes) make numpy raise; members that ALL have a single column
+are broadcast against `np.ones(n_classes)` (every class gets the same value). -/
 def forestProba (nClasses : Nat) (members : List Mat) : Except Err Mat :=
   match members with
   | [] => .error .value
   | m :: ms =>
     if (m :: ms).all (sameShape m.length nClasses) then
       .ok (scaleMat ((m :: ms).length : Rat) (sumMats m ms))
+    else if (m :: ms).all (sameShape m.length 1) then
+      .ok ((scaleMat ((m :: ms).length : Rat) (sumMats m ms)).map (fun r => List.replicate nClasses (r.headD 0)))
     else .error .value
 
-/-- `np.average(np.asarray([member probabilities …]), axis=0)` (column ensemble) -/
+/-- number of columns of a matrix (0 for a matrix without rows) -/
+def firstWidth : Mat → Nat
+  | [] => 0
+  | r :: _ => r.length
+
+/-- `np.average(np.asarray([member probabilities …]), axis=0)` (column ensemble): `np.asarray` needs
+matrices of one shape -/
 def avgProba (members : List Mat) : Except Err Mat :=
   match members with
   | [] => .error .value
   | m :: ms =>
-    let K := match m with | [] => 0 | r :: _ => r.length
-    if (m :: ms).all (sameShape m.length K) then
+    if (m :: ms).all (sameShape m.length (firstWidth m)) then
       .ok (scaleMat ((m :: ms).length : Rat) (sumMats m ms))
     else .error .value
 
@@ -254,8 +262,11 @@ def ceMembers (cols : List String) (es : List Entry) : Except Err (List (List Na
 
 /-! ### time series forest: fitted intervals and interval features -/
 
+/-- `int(math.sqrt(L))`: the number of `k ≥ 1` with `k·k ≤ L` (structural, kernel-reducible) -/
+def isqrt (L : Nat) : Nat := ((List.range (L + 1)).filter (fun k => decide (k * k ≤ L))).length - 1
+
 /-- `n_intervals = int(math.sqrt(series_length))`, at least 1 -/
-def nIntervals (L : Nat) : Nat := if Nat.sqrt L = 0 then 1 else Nat.sqrt L
+def nIntervals (L : Nat) : Nat := if isqrt L = 0 then 1 else isqrt L
 
 /-- `if series_length < min_interval: min_interval = series_length` -/
 def minIntervalFit (L m : Nat) : Nat := if L < m then L else m
